@@ -14,6 +14,7 @@ import (
 var ladder = []time.Duration{time.Second, 6 * time.Second, 66 * time.Second, 366 * time.Second, 3966 * time.Second}
 
 const (
+	attemptMax    = 15 * time.Second // a failing attempt may itself take 4 x 3 s read time-outs plus back-off before the next delay starts
 	ladderSlack   = 30 * time.Second // wheel granularity (1 s per rung), task hand-over, command round trips, injected stalls
 	breakerWindow = 15 * time.Second // go-zero's redis breaker forgets failures after 10 s
 )
@@ -471,7 +472,7 @@ func (w *world) finish() {
 			// the quiet period must succeed
 			for i, c := range ladder {
 				if ent.dirtyInv.Add(c - time.Duration(i+1)*time.Second).After(quiet) {
-					d := ent.dirtyRet.Add(c + ladderSlack)
+					d := ent.dirtyRet.Add(c + time.Duration(i+1)*attemptMax + ladderSlack)
 					if d.After(deadline) {
 						deadline = d
 					}
